@@ -236,7 +236,7 @@ def harnesses(tier):
 
 def leg_pool(part, tier, shard, nshards):
     total = explore.explore_adaptive(harnesses(tier), P.LEVELS, 1200 if tier == "quick" else 40000,
-                                     global_budget=100000 if tier == "quick" else 3000000)
+                                     global_budget=100000 if tier == "quick" else 1200000)
     part.merge(total)
 
 
